@@ -420,4 +420,88 @@ theorem lastBy?_max {α} {cmp : α → α → Ordering} [Std.TransCmp cmp] {l : 
   · simp at hx'; subst hx'
     unfold leOf; rw [Std.ReflCmp.compare_self (cmp := cmp)]; rfl
 
+/-! ### more dict facts; `mapM` in `Except` -/
+
+theorem Dict.get?_union_of_not_mem {α} (a b : Dict α) {k : String} (h : k ∉ b.keys) :
+    (a.union b).get? k = a.get? k := by
+  induction b generalizing a with
+  | nil => rfl
+  | cons p b ih =>
+    simp only [Dict.keys, List.map_cons, List.mem_cons, not_or] at h
+    rw [Dict.union_cons, ih _ (by simpa [Dict.keys] using h.2), Dict.get?_set]
+    have : (p.1 == k) = false := by simpa using fun e => h.1 e.symm
+    rw [this]; rfl
+
+theorem Dict.keys_filter_sub {α} (d : Dict α) (p : String → Bool) {k : String}
+    (h : k ∈ Dict.keys (d.filter (fun kv => p kv.1))) : p k = true ∧ k ∈ d.keys := by
+  simp only [Dict.keys, List.mem_map, List.mem_filter] at h ⊢
+  obtain ⟨kv, ⟨hm, hp⟩, rfl⟩ := h
+  exact ⟨hp, kv, hm, rfl⟩
+
+theorem Dict.get?_filter {α} (d : Dict α) (p : String → Bool) (k : String) :
+    Dict.get? (d.filter (fun kv => p kv.1)) k = if p k then d.get? k else none := by
+  induction d with
+  | nil => simp [Dict.get?_nil]
+  | cons q d ih =>
+    rw [List.filter_cons]
+    by_cases hq : p q.1 = true
+    · rw [if_pos hq, Dict.get?_cons, Dict.get?_cons, ih]
+      by_cases hk : q.1 = k
+      · subst hk; simp [hq]
+      · have : (q.1 == k) = false := by simpa using hk
+        simp [this]
+    · rw [if_neg hq, ih, Dict.get?_cons]
+      by_cases hk : q.1 = k
+      · subst hk; simp [hq]
+      · have : (q.1 == k) = false := by simpa using hk
+        simp [this]
+
+theorem Dict.WF_filter {α} {d : Dict α} (h : d.WF) (p : String × α → Bool) : Dict.WF (d.filter p) := by
+  unfold Dict.WF Dict.keys at *
+  exact h.sublist (List.Sublist.map _ List.filter_sublist)
+
+theorem mapM_ok_map {α β ε} {f : α → Except ε β} {g : α → β} {l : List α} {out : List β}
+    (hfg : ∀ a b, f a = .ok b → b = g a) (h : l.mapM f = .ok out) :
+    out = l.map g ∧ ∀ a ∈ l, f a = .ok (g a) := by
+  induction l generalizing out with
+  | nil => simp [List.mapM_nil, pure, Except.pure] at h; subst h; simp
+  | cons a rest ih =>
+    rw [List.mapM_cons] at h
+    simp only [bind, Except.bind] at h
+    split at h
+    · cases h
+    · rename_i v hv
+      split at h
+      · cases h
+      · rename_i vs hvs
+        simp only [pure, Except.pure] at h
+        cases h
+        obtain ⟨h1, h2⟩ := ih hvs
+        have := hfg a v hv
+        subst this
+        refine ⟨by rw [h1]; rfl, fun x hx => ?_⟩
+        rcases List.mem_cons.mp hx with rfl | hx
+        · exact hv
+        · exact h2 x hx
+
+theorem mapM_error {α β ε} {f : α → Except ε β} {l : List α} {e : ε}
+    (hf : ∀ a ∈ l, ∀ e', f a = .error e' → e' = e) (hex : ∃ a ∈ l, ∃ e', f a = .error e') :
+    l.mapM f = .error e := by
+  induction l with
+  | nil => obtain ⟨a, ha, _⟩ := hex; cases ha
+  | cons a rest ih =>
+    rw [List.mapM_cons]
+    simp only [bind, Except.bind]
+    cases hfa : f a with
+    | error e' => rw [hf a (by simp) e' hfa]
+    | ok v =>
+      simp only []
+      have : rest.mapM f = .error e := by
+        apply ih (fun x hx => hf x (by simp [hx]))
+        obtain ⟨x, hx, e', he'⟩ := hex
+        rcases List.mem_cons.mp hx with rfl | hx
+        · rw [hfa] at he'; cases he'
+        · exact ⟨x, hx, e', he'⟩
+      rw [this]
+
 end Bermuda
